@@ -16,15 +16,18 @@ TRUSTED = ['C07/Model.v: hand-written model of AcquisitionRegistry.get_registry_
            'default (-1,-1)), AcquisitionIdentifier equality (qubit, tag, unique_identifier), equal_tag, get_acquisition_indices (both variants); '
            'tied to the code by this correspondence run on every index getter',
            'the listing (decomposed_operations order), the start times and the registry each measurement is attached to are taken from the '
-           'implementation: the driver serialises them (the listing order and schedule themselves are C01/C02)',
+           'implementation: the driver serialises them, together with channels / start / duration of every listed operation and of every sub-circuit '
+           '(the listing order and schedule themselves are C01/C02)',
            'Stim: only the order and number of M targets of to_stim(circuit).flattened() are observed']
 ASSUMPTIONS = ['every AcquisitionIdentifier gets a fresh unique_identifier (class-level counter), so the uids of a listing are pairwise distinct; '
                'the driver checks it on every case (o_uids_ok, NoDup) instead of assuming it',
                'after apply_modifiers() every repetition count is 1 and the exporter walks the same tree as decomposed_operations(), so the listing is '
                'the record order; the check compares the exported M targets with the listing on every case',
                'the clause "index increases with start time" is proved from the hypothesis that same-qubit measurements are listed in non-decreasing '
-               'start-time order (what C01/C02 give for implicitly sequenced, overlap-free circuits); on implementation outputs it is judged directly '
-               'for programs without explicit relations; library-built circuits are C09/C13\'s',
+               'start-time order (what C01/C02 are to give for implicitly sequenced, overlap-free circuits); on implementation outputs it is judged directly '
+               'for library-built circuits and for programs without explicit relations that are free of channel overlaps, where a sub-circuit counts as an '
+               'operation occupying its channels from its start to start + duration (two listed operations, a listed operation and a sub-circuit not '
+               'containing it, two sub-circuits neither of which contains the other: must not share a channel and overlap in time)',
                'times are compared as integers in ticks of 1/8 (asserted exact by the driver); the memoised start times are cleared before each case']
 RULE = ('random build programs: 1-4 qubits, 2-9 commands per circuit, measurements (tags from {"", a, b, heralded, final}; registry of the circuit '
         'they are added to, or of the outermost circuit) interleaved with Wait / Rx180 / CPhase / Barrier; sub-circuits built as their own '
@@ -37,9 +40,11 @@ LEVEL_TEXT = ('Coq theorems over all listings with pairwise distinct identifiers
               'the by-qubit / by-(qubit, tag) getters return exactly the per-qubit indices of the matching measurements; tags partition a qubit\'s '
               'indices; circuit-level index = record position; unknown identifier -> (-1,-1); index increases with start time when same-qubit '
               'measurements are listed in start-time order (partial: that hypothesis is C01/C02\'s). Randomised correspondence evaluated by vm_compute.')
-LEVEL_NOTE = ('The scan is a hand-written model tied by correspondence; listing order, schedule and registry attachment are read from the '
-              'implementation. Known findings: F12 (a registry re-targeted to a value-equal sub-circuit yields -1 after a circuit was listed before being copied), '
-              'F13/F14 (listing order of same-qubit measurements is not their start-time order with sub-circuits / unrolled repetitions).')
+LEVEL_NOTE = ('The scan is a hand-written model tied by correspondence; listing order, schedule (of operations and of sub-circuits) and registry '
+              'attachment are read from the implementation. The start-time clause is a theorem only under the stated listing-order hypothesis '
+              '(acq_monotone_time_partial); on implementation outputs it is judged directly. Known finding F12: a registry re-targeted to a value-equal '
+              'sub-circuit yields -1 after a circuit was listed before being copied. F14 (interleaved unrolled listing) is fixed in 9e78ed9 and kept as a '
+              'regression case; the former F13 was a false alarm of this check (premise now read with sub-circuits occupying their channels).')
 TECHNIQUE = 'Coq proof over a hand-written model of the scan + randomised correspondence evaluated by vm_compute'
 
 TAGS = ['', 'a', 'b', 'heralded', 'final', 'parity']     # generated programs use the first five; 'parity' comes from the library
